@@ -538,6 +538,14 @@ impl Live {
                 },
                 _ => Res::NotApplicable,
             },
+            Op::Normalize(e) => match self.node(*e) {
+                XmlNode::Element(x) => {
+                    x.normalize();
+                    self.discover();
+                    Res::Ok { ret: None, text: None }
+                }
+                _ => Res::NotApplicable,
+            },
             Op::SplitText(t, k) => match self.node(*t) {
                 XmlNode::Text(x) => match x.split_text(*k) {
                     Ok(n) => ok_node(self, n.as_node()),
@@ -1020,6 +1028,11 @@ impl Live {
         }
         if a.split {
             for h in 0..n {
+                if !self.is_foreign[h] && kind_of(&self.pool[h]) == Kind::Element {
+                    ops.push(Op::Normalize(h));
+                }
+            }
+            for h in 0..n {
                 if self.is_foreign[h] {
                     continue;
                 }
@@ -1212,6 +1225,7 @@ fn arg_features(l: &Live, op: &Op) -> String {
         Op::SetAttributeNode(e, a) | Op::SetNamedItem(e, a) | Op::RemoveAttributeNode(e, a) => format!("{}:{}", k(e), rel(e, a)),
         Op::SetNodeValue(n, v) => format!("{}:{}", k(n), str_class(v)),
         Op::SetAttribute(_, n, v) => format!("{}={}", str_class(n), str_class(v)),
+        Op::Normalize(e) => format!("{}:{}", k(e), if l.pool[*e].parent_node().is_some() { "attached" } else { "detached" }),
         Op::SplitText(t, o) => {
             let len = Live::value_of(&l.pool[*t]).chars().count();
             format!(
